@@ -129,16 +129,53 @@ def run(F, rep):
             rep.check(okc, 'C10.S1', '%s::doEquals|%s.size' % (cls, coll), f.where(),
                       '%s::doEquals never compares %s.size() with the other side\'s count: a.equals(b) only checks that a\'s children occur in b, so equals is asymmetric when b has more children' % (cls, coll),
                       'sizes compared for equality')
-    # S2
+    # S2 / O1: children are matched one-to-one
     ce = do_equals(F, 'ComponentEntity')
     cc = [n for n in ce.walk() if n.get('k') == 'Call' and n.get('fn') == 'containsComponent' and not is_this_like(n['c'][0])]
-    if not cc:
-        raise AnalysisBroken('ComponentEntity::doEquals no longer matches children with containsComponent')
     for n in cc:
         a = unwrap_defarg(nth_arg(n, 1))
         rep.check(a is not None and a.get('k') == 'Bool' and a.get('v') is False, 'C10.S2', 'ComponentEntity::doEquals|containsComponent.searchEncapsulated', ce.where(n),
                   'children are matched with containsComponent(child, %s): a deep search lets a child of this side match a grandchild of the other side (asymmetric, ignores structure)' % render(a),
                   'searchEncapsulated=false')
+    rep.rule('C10.O1', 'children are matched ONE-TO-ONE: every loop of the equality family (doEquals, equal<Kind>, equalEntities) that walks this side\'s children and compares them with the other side\'s removes the matched partner from a list of '
+                       'unmatched indices (erase in the loop); a membership test (contains*/has*) or a lookup by name lets two children of this side share one partner: {c,c} equals {c,d} but not the reverse')
+    fam = {}
+    for cls in CLASSES:
+        f0 = do_equals(F, cls)
+        fam[f0.key] = f0
+    work = list(fam.values())
+    while work:
+        g = work.pop()
+        for c in g.walk():
+            if c.get('k') == 'Call':
+                for ck in F.callee_keys(c):
+                    h = F.funcs.get(ck)
+                    if h is not None and ck not in fam and h.name.startswith('equal') and h.name != 'equals':
+                        fam[ck] = h
+                        work.append(h)
+    n_o = 0
+    for g in fam.values():
+        for L in g.walk():
+            if L.get('k') not in ('RangeFor', 'For') or g.enclosing_lambda(L) is not None:
+                continue
+            if any(a.get('k') in ('RangeFor', 'For', 'While', 'Do') for a in g.ancestors(L)):
+                continue   # inner search loops are judged with their outer loop
+            hdr = role(L, 'range') if L.get('k') == 'RangeFor' else role(L, 'cond')
+            own = hdr is not None and any((m.get('k') == 'Member' and m.get('field') and m['n'] in sum(COLLECTIONS.values(), [])) or (m.get('k') == 'Ref' and m.get('dk') == 'parm' and 'std::vector<' in (m.get('t') or '')) for m in walk(hdr))
+            if not own:
+                continue
+            body = role(L, 'body')
+            compares = [c for c in walk(body) if c.get('k') == 'Call' and (c.get('fn') in ('equals', 'areNearlyEqual') or (c.get('fn') or '').startswith(('contains', 'has')))]
+            if not compares:
+                continue
+            n_o += 1
+            erases = [c for c in walk(body) if c.get('k') == 'Call' and c.get('mc') and c.get('fn') == 'erase' and c['c'][0].get('k') == 'Ref' and c['c'][0].get('dk') == 'local' and 'std::vector<' in (c['c'][0].get('t') or '')]
+            member = [c for c in compares if (c.get('fn') or '').startswith(('contains', 'has'))]
+            rep.check(bool(erases) and not member, 'C10.O1', '%s|loop over %s' % (g.short, render(hdr)[:40]), g.where(L),
+                      '%s walks its own children and compares each with the other side (%s) without removing the matched partner from a list of unmatched children: two equal children of this side can both match one child of the other side, so equals() is asymmetric for children that are not unique'
+                      % (g.short, ', '.join(sorted({render(c)[:40] for c in compares}))[:120]), 'matched partner erased from `%s`' % (render(erases[0]['c'][0]) if erases else ''))
+    if n_o < 3:
+        raise AnalysisBroken('C10.O1: only %d child-matching loops found in the equality family (3 confirmed: components, entities, unit definitions)' % n_o)
     # U1
     ud = [r for q, r in F.records.items() if q.endswith('::UnitDefinition')]
     if len(ud) != 1:
